@@ -23,6 +23,8 @@ pub struct Case {
     pub repeated_text: bool,
     pub front_end: FrontEnd,
     pub faults: bool,
+    #[serde(default)]
+    pub via_entry: bool,
     pub cfg: SimConfig,
 }
 
@@ -197,7 +199,8 @@ impl C18 {
             _ => Strategy::Starve(rng.below(3) as u8),
         };
         cfg.budget = 400 * (iterations as u64) * (seq.len() as u64 + 2) * 40 + 50_000;
-        Case { class, seq, iterations, repeated_text, front_end, faults, cfg }
+        let via_entry = rng.below(6) == 0;
+        Case { class, seq, iterations, repeated_text, front_end, faults, via_entry, cfg }
     }
 }
 
@@ -281,6 +284,7 @@ pub fn judge(case: &Case) -> Verdict {
         let mut spec = RunSpec::new(script.clone(), case.front_end.clone(), cfg.clone());
         spec.files = files.clone();
         spec.needs_dir = true;
+        spec.via_entry = case.via_entry;
         spec
     };
     let r = runner::run(&mk(&case.cfg));
@@ -450,6 +454,7 @@ impl Check for C18 {
                     repeated_text: *rep,
                     front_end: fe.clone(),
                     faults: *faults,
+                    via_entry: false,
                     cfg,
                 };
                 out.push(serde_json::to_value(case).unwrap_or(Value::Null));
